@@ -512,6 +512,7 @@ class Reaction:
                     chemicals = self.chemicals.tuple
                     IDs = [chemicals[i].ID for i in negative_index]
                     if len(IDs) == 1: IDs = repr(IDs[0])
+                    if config: material._imol.reset_chemicals(*config) # Material keeps its own chemicals
                     raise InfeasibleRegion(f'conversion of {IDs} is over 100%; reaction conversion')
                 else:
                     values[negative_index] = 0.
